@@ -255,7 +255,7 @@ theorem ackCore_disc {s : State} {env : Env} {ranges : List Range} {lvl : Level}
   unfold State.ackCore at hok ⊢
   by_cases h1 : s.ackedBuf > 0
   · simp [h1] at hok
-  · by_cases h2' : lvl = .oneRTT ∧ sp.hist.skipped.any (acksPacket ranges bot.1 top.2)
+  · by_cases h2' : lvl = .oneRTT ∧ sp.hist.skipped.any (acksPacketBin ranges bot.1 top.2)
     · simp [h1, h2'] at hok
     · simp only [h1, h2', if_false, e1] at hok ⊢
       have cp := collect_probesOK (decide (ranges.length > 1)) bot.1 top.2 sp.hist.packets sp.hist.first ranges.reverse sp.hist.probes [] []
@@ -323,11 +323,12 @@ theorem receivedAck_disc {s : State} {env : Env} {ranges : List Range} {lvl : Le
 
 theorem timeoutMain_disc (s : State) (env : Env) (now : Time) (nts : PN) (evs0 : List Ev) (disc0 : List Frame) :
     (s.timeoutMain env now nts evs0 disc0).2.disc = disc0 := by
-  unfold State.timeoutMain
+  unfold State.timeoutMain State.timeoutMainG
   split
   · rfl
   · split
-    · simp only []
+    · unfold State.antiDeadlockProbe
+      simp only []
       split
       · rfl
       · split <;> rfl
